@@ -217,15 +217,25 @@ func buildPolicies(st []PolD, li *liveInst) []failsafe.Policy[int] {
 			b.WithMaxHedges(p.Hedges+3).OnHedge(func(e failsafe.ExecutionEvent[int]) { log().attempt("Hedge", pos+1000, e.ExecutionAttempt, 0) })
 		case "Fallback":
 			var b fallback.FallbackBuilder[int]
+			// a fallback is never applied to an execution that is already cancelled: such an invocation is logged (aux = 1)
+			fbGuard := func(e failsafe.Execution[int]) {
+				if e.IsCanceled() {
+					log().add("FallbackExecuted", pos, 0, 0, 0, 0, "(0, None)", 1)
+				}
+			}
 			switch p.FBKind {
 			case "Result":
 				b = fallback.BuilderWithResult[int](int(p.FBR))
 			case "Error":
 				b = fallback.BuilderWithError[int](p.FBE.Build())
 			case "Echo":
-				b = fallback.BuilderWithFunc[int](func(e failsafe.Execution[int]) (int, error) { return e.LastResult() + int(p.FBR), nil })
+				b = fallback.BuilderWithFunc[int](func(e failsafe.Execution[int]) (int, error) {
+					fbGuard(e)
+					return e.LastResult() + int(p.FBR), nil
+				})
 			default:
 				b = fallback.BuilderWithFunc[int](func(e failsafe.Execution[int]) (int, error) {
+					fbGuard(e)
 					if le := e.LastError(); le != nil {
 						d, _ := Describe(le)
 						return e.LastResult(), wrap(d).Build()
